@@ -94,6 +94,18 @@ class PathCtx:
         if i.op == "xor" and i.ops[1][0] == "c" and i.ops[1][1] == 1:
             t = self.cond(i.ops[0])
             return None if t is None else (not t)
+        if i.op == "trunc":
+            # a C `bool` local: i1 widened (zext) into an i8, merged by phis, narrowed again for the test
+            r2 = self.resolve(i.ops[0])
+            if r2[0] == "c":
+                return bool(r2[1] & 1)
+            if r2[0] == "i" and r2[1] != i.id:
+                j = self.fn.insts[r2[1]]
+                if j.id in self.truth:
+                    return self.truth[j.id]
+                if j.op in ("icmp", "xor", "and", "or", "select", "call") and (j.d.get("w") == 1 or j.d.get("ty") == "i1" or j.op in ("icmp", "call")):
+                    return self.cond(r2)
+            return None
         if i.op == "icmp":
             a, b = self.value(i.ops[0]), self.value(i.ops[1])
             pred = i.d["pred"]
